@@ -41,6 +41,13 @@ type switchRules interface {
 	checkSwitch(c *checker, x *SwitchStmt)
 }
 
+// indexRules: dialect typing of x[i] after both operands have been checked
+// (object indexing, index conversions).  A nil result continues with the
+// shared rules.
+type indexRules interface {
+	index(c *checker, x *Index) Expr
+}
+
 // dialectHooks are the evaluator-side hooks of a Program.
 type dialectHooks struct {
 	// binary evaluates a Binary / compound assignment whose Mode is bmCustom.
